@@ -1,0 +1,38 @@
+//go:build verif
+
+package derive
+
+import "go/types"
+
+// This file is compiled only with the build tag `verif`. It adds no behaviour: it exports
+// constructors for unexported parts of this package so that an external, in-process
+// verification harness can drive them directly (typesMap, printer, qualifier, sortPlugins).
+
+// VerifNewTypesMap returns a fresh typesMap as newPackage creates one per plugin.
+// qual may be nil, in which case every package is printed unqualified.
+func VerifNewTypesMap(qual types.Qualifier, prefix string, reserved map[string]struct{}, autoname, dedup bool) TypesMap {
+	if qual == nil {
+		qual = func(*types.Package) string { return "" }
+	}
+	return newTypesMap(qual, prefix, reserved, autoname, dedup)
+}
+
+// VerifNewPrinter returns a fresh printer as newPackage creates one per package.
+func VerifNewPrinter(pkgName string) Printer {
+	return newPrinter(pkgName)
+}
+
+// VerifNewQualifier returns the qualifier newPackage hands to every typesMap.
+func VerifNewQualifier(p Printer, pkg *types.Package) types.Qualifier {
+	return newQualifier(p, pkg)
+}
+
+// VerifSortPlugins sorts ps in place exactly as NewPlugins does.
+func VerifSortPlugins(ps []Plugin) {
+	sortPlugins(ps)
+}
+
+// VerifTypesEq is the argument-type-list comparison used by the typesMap look-up.
+func VerifTypesEq(this, that []types.Type) bool {
+	return eq(this, that)
+}
